@@ -219,3 +219,21 @@ CHECKS["C17"] = {
          "checks_quick": 30, "checks_thorough": 1200, "shards_quick": 8, "shards_thorough": 16, "timeout_quick": 300, "timeout_thorough": 1800},
     ],
 }
+
+CHECKS["C16"] = {
+    "level": "exploration",
+    "technique": "exhaustive enumeration of short argument vectors and option suffixes plus random vectors (rapid), against the real command multiplexer under recover() and a watchdog",
+    "level_text": ("Every registered command (both cases) plus unknown names is invoked in process through the member's real multiplexer with a recording connection: (short) every argument vector of up to 3 tokens from a 31-token alphabet "
+                   "(option keywords in both cases, numbers that are empty, negative, fractional, 1e309, NaN, 2^63-1, 2^64, huge, non-numeric, empty/binary/300-byte strings); (suffix) a valid form of every command followed by every suffix of up to 3 tokens (4 in thorough), "
+                   "and every single-position substitution and truncation of the valid form; (rapid) random vectors of up to 12 arguments with raw bytes on a two-member cluster so that forwarding paths run. "
+                   "Oracle: no panic, the handler returns within 10 s, it wrote a reply, and the member still answers PING over TCP afterwards. Failures are grouped by root cause (first repository frame of the panic / command of the hang)."),
+    "level_note": "trusted: the recording connection stands in for redcon's; every DMap is wiped locally before each vector so that no earlier command (a held lock) can make a later one wait legitimately; SUBSCRIBE/PSUBSCRIBE take the connection over and are exercised over TCP in C14",
+    "rule": "short/suffix: complete enumerations (every vector is distinct by construction and is malformed or carries option tokens: non-trivial); rapid: distinct case hash",
+    "assumptions": ["internal.node.updaterouting with a well-formed table is the documented way a coordinator installs routing and is not replayed with arbitrary suffixes"],
+    "parts": [
+        {"name": "short", "pkg": ROOT, "test": "TestVerifC16Short", "kind": "plain", "shards_quick": 8, "shards_thorough": 16, "timeout_quick": 400, "timeout_thorough": 1800},
+        {"name": "suffix", "pkg": ROOT, "test": "TestVerifC16Suffix", "kind": "plain", "shards_quick": 8, "shards_thorough": 16, "timeout_quick": 400, "timeout_thorough": 3000},
+        {"name": "rapid", "pkg": ROOT, "test": "TestVerifC16Rapid", "kind": "rapid",
+         "checks_quick": 3000, "checks_thorough": 100000, "shards_quick": 4, "shards_thorough": 16, "timeout_quick": 400, "timeout_thorough": 1800},
+    ],
+}
